@@ -36,8 +36,7 @@ THEOREMS = [
     "MysticVerif.C20.support_roundtrip",
     "MysticVerif.C20.converge_roundtrip",
     "MysticVerif.C20.raw_file_spec",
-    "MysticVerif.C20.support_cost_partial",
-    "MysticVerif.C20.support_cost_witness",
+    "MysticVerif.C20.support_cost_spec",
 ]
 
 NREG = 4
